@@ -43,17 +43,6 @@ func guarded(n int, f func() string) string {
 }
 
 func init() {
-	handlers["tokens"] = func(args []string) string {
-		in := unhex(args[0])
-		return guarded(len(in), func() string {
-			toks := compiler.VerifTokens([]byte(in), 100000)
-			parts := make([]string, len(toks))
-			for i, t := range toks {
-				parts[i] = t.Typ + ":" + tohex(t.Lit) + ":" + strconv.Itoa(t.Line) + ":" + strconv.Itoa(t.Col)
-			}
-			return strings.Join(parts, ";")
-		})
-	}
 	handlers["quote"] = func(args []string) string {
 		return "ok " + tohex(strconv.Quote(unhex(args[0])))
 	}
